@@ -1,0 +1,173 @@
+//! Verification-only seams and read accessors.
+//!
+//! This module is compiled only with `--cfg ax_verif` (never in normal builds). It adds no
+//! behaviour of its own: it exposes internal state read-only to an external test harness and
+//! lets that harness (a) supply the values that would otherwise come from `rand::thread_rng()`
+//! and (b) bound the data-dependent retry loops of the memory allocator.
+
+use std::cell::{Cell, RefCell};
+
+use crate::axecutor::Axecutor;
+use crate::helpers::trace::TraceVariant;
+
+thread_local! {
+    static RNG_STREAM: RefCell<Option<Box<dyn FnMut() -> u64>>> = RefCell::new(None);
+    static FUEL: Cell<Option<u64>> = Cell::new(None);
+    static FUEL_HIT: Cell<bool> = Cell::new(false);
+}
+
+/// Install (or remove) the stream that replaces `rand::thread_rng()` draws on this thread.
+pub fn set_rng(stream: Option<Box<dyn FnMut() -> u64>>) {
+    RNG_STREAM.with(|s| *s.borrow_mut() = stream);
+}
+
+pub(crate) fn rng_u64() -> Option<u64> {
+    RNG_STREAM.with(|s| s.borrow_mut().as_mut().map(|f| f()))
+}
+
+pub(crate) fn rng_u128() -> Option<u128> {
+    let hi = rng_u64()?;
+    let lo = rng_u64()?;
+    Some(((hi as u128) << 64) | lo as u128)
+}
+
+/// Set the iteration budget shared by the address-space retry loops (None = unbounded).
+pub fn set_fuel(budget: Option<u64>) {
+    FUEL.with(|f| f.set(budget));
+    FUEL_HIT.with(|f| f.set(false));
+}
+
+/// True if a retry loop ran out of budget since the last `set_fuel`.
+pub fn fuel_was_exhausted() -> bool {
+    FUEL_HIT.with(|f| f.get())
+}
+
+pub(crate) fn fuel_exhausted() -> bool {
+    FUEL.with(|f| match f.get() {
+        None => false,
+        Some(0) => {
+            FUEL_HIT.with(|h| h.set(true));
+            true
+        }
+        Some(n) => {
+            f.set(Some(n - 1));
+            false
+        }
+    })
+}
+
+/// Read-only description of one memory area.
+#[derive(Debug, Clone, PartialEq, Eq)]
+pub struct AreaView {
+    pub start: u64,
+    pub length: u64,
+    pub access: u32,
+    pub name: Option<String>,
+    pub data: Vec<u8>,
+}
+
+/// Read-only description of one trace entry: variant is 0 = call, 1 = return, 2 = jump.
+#[derive(Debug, Clone, Copy, PartialEq, Eq)]
+pub struct TraceView {
+    pub instr_ip: u64,
+    pub target: u64,
+    pub variant: u8,
+    pub level: i16,
+    pub count: u64,
+}
+
+impl Axecutor {
+    pub fn verif_rflags(&self) -> u64 {
+        self.state.rflags
+    }
+
+    pub fn verif_set_rflags(&mut self, value: u64) {
+        self.state.rflags = value;
+    }
+
+    pub fn verif_finished(&self) -> bool {
+        self.state.finished
+    }
+
+    pub fn verif_executed(&self) -> u64 {
+        self.state.executed_instructions_count
+    }
+
+    pub fn verif_max_instructions(&self) -> Option<u64> {
+        self.state.max_instructions
+    }
+
+    pub fn verif_code_end(&self) -> u64 {
+        self.code_end_addr
+    }
+
+    pub fn verif_stack_top(&self) -> u64 {
+        self.stack_top
+    }
+
+    pub fn verif_hooks_running(&self) -> bool {
+        self.hooks.running
+    }
+
+    pub fn verif_call_stack(&self) -> Vec<u64> {
+        self.state.call_stack.clone()
+    }
+
+    pub fn verif_trace(&self) -> Vec<TraceView> {
+        self.state
+            .trace
+            .iter()
+            .map(|e| TraceView {
+                instr_ip: e.instr_ip,
+                target: e.target,
+                variant: match e.variant {
+                    TraceVariant::Call => 0,
+                    TraceVariant::Return => 1,
+                    TraceVariant::Jump => 2,
+                },
+                level: e.level,
+                count: e.count,
+            })
+            .collect()
+    }
+
+    pub fn verif_trace_len(&self) -> usize {
+        self.state.trace.len()
+    }
+
+    /// (start, length) of the area managed by the built-in brk handler; start 0 = not yet created
+    pub fn verif_brk(&self) -> (u64, u64) {
+        self.state.syscalls.verif_brk()
+    }
+
+    /// All pipes of the built-in pipe handler as (read end, write end, buffered bytes), sorted by read end
+    pub fn verif_pipes(&self) -> Vec<(u64, u64, Vec<u8>)> {
+        self.state.syscalls.verif_pipes()
+    }
+
+    pub fn verif_area_count(&self) -> usize {
+        self.state.memory.len()
+    }
+
+    /// (start, length, access, data length) of every area, in internal order, without copying the contents
+    pub fn verif_area_extents(&self) -> Vec<(u64, u64, u32, usize)> {
+        self.state
+            .memory
+            .iter()
+            .map(|a| a.verif_extent())
+            .collect()
+    }
+
+    pub fn verif_areas(&self) -> Vec<AreaView> {
+        self.state.memory.iter().map(|a| a.verif_view()).collect()
+    }
+
+    /// Contents of the area that starts at `start`, regardless of its permissions
+    pub fn verif_area_data(&self, start: u64) -> Option<&[u8]> {
+        self.state
+            .memory
+            .iter()
+            .find(|a| a.verif_extent().0 == start)
+            .map(|a| a.verif_data())
+    }
+}
